@@ -60,6 +60,9 @@ def witnesses():
         Nd("Seq", 0, [Nd("Par", 0, [L("succ", 1), L("succ", 0)]), L("block", 1)]),
         Nd("Seq", 2, [Nd("IfElse", 0, [L("succ", 0), L("fail", 1), None]), L("succ", 0)]),
         Nd("Seq", 0, []),
+        Nd("Wrap", 1, [L("succ", 0)]), Nd("Wrap", 1, [L("fail", 1)]),     # the held result is the child's, converted once
+        Nd("Seq", 1, [Nd("Wrap", 1, [L("fail", 0)]), L("succ", 0, k="Func")]),
+        Nd("Wrap", 2, [L("fail", 0)]), Nd("Wrap", 3, [L("succ", 0)]),
         Nd("Comp", 0, [L("succ", 0)]),                                    # last-child result held while paused
         Nd("IfElse", 0, [L("succ", 0), L("fail", 0), None]),
         Nd("Loop", 2, [L("succ", 1)]),
@@ -120,6 +123,34 @@ def parallel_pause_family(full):
                     for i, sc in enumerate(scripts):
                         tree = par if (i % 2 == 0) else Nd("Seq", 0, [P.clone(par), L("succ", 1)])
                         res.append({"prog": P.flatten(tree), "script": sc, "passes": len(sc) + 7})
+    return res
+
+
+def serial_pause_family(full):
+    """Systematic family for the pause window of the serial composites: every depth-1 serial composite in every mode over
+    leaves {succ,fail} x delay {0,1} (<= 2 leaves; Wrapper in all four modes, Repeat 0/1/2 times, ...), driven by scripts in which
+    the child's finish is queued when pause() arrives, incl. several calls in ONE pass: resume+pause (the replayed result
+    meets a paused composite again and must be held again), pause+resume, start+pause."""
+    alpha = [("succ", 0), ("fail", 0), ("succ", 1), ("fail", 1)]
+    trees = [t for t in P.composites(P.leaves(alpha), 2, switch_leaves=[P.L("succ", 0, 1), P.L("succ", 1, 0), P.L("fail", 0, 1)], small=True)
+             if t["k"] != "Par" and P.nleaves(t) >= 1]
+    scripts = [["start", "pause", "resume"],
+               ["start+pause", "resume"],
+               ["start", "pause", "resume+pause", "resume"],
+               ["start", "pause", "resume+pause", "-", "resume+pause", "resume"],
+               ["start", "-", "pause", "resume+pause", "resume"],
+               ["start", "pause+resume+pause", "resume"],
+               ["start", "~pause", "resume+pause", "resume"],
+               ["start", "pause", "resume", "pause", "resume"]]
+    if full:
+        scripts += [["start", "pause", "resume+pause+resume"], ["start", "-", "~pause", "resume+pause", "-", "resume"],
+                    ["start", "pause", "-", "resume+pause", "resume+pause", "resume"], ["start", "pause", "resume+pause", "stop+reset+start"]]
+    res = []
+    for i, t in enumerate(trees):
+        for j, sc in enumerate(scripts):
+            if not full and (i + j) % 2:            # quick: every program with half of the scripts, alternating
+                continue
+            res.append({"prog": P.flatten(t), "script": sc, "passes": len(sc) + 7})
     return res
 
 
@@ -272,16 +303,16 @@ def run_checked(ctx):
 
     # ---- 2. spec -> code: TLC-enumerated scripts executed on the real trees -------------------------------------------
     progs_w = [P.flatten(t) for t in wit]
-    behs = ctx.tlc_gen("Flow", "Gen_ActionTree.tla", "Gen_ActionTree.cfg", env={"PROGS": pw})
-    jobs = regressions() + parallel_pause_family(not quick) + jobs_from_behaviours(progs_w, behs)
+    behs = ctx.tlc_gen("Flow", "Gen_ActionTree.tla", "Gen_ActionTree.cfg" if quick else "Gen_deep.cfg", env={"PROGS": pw})
+    jobs = regressions() + parallel_pause_family(not quick) + serial_pause_family(not quick) + jobs_from_behaviours(progs_w, behs)
     ctx.sample({"kind": "TLC-enumerated control script executed on the real tree", "program": jobs[len(jobs) // 2]["prog"],
                 "script": jobs[len(jobs) // 2]["script"]})
-    ok, n, tr = validate(ctx, exe, jobs, "gen_bfs", "regression scenarios + Parallel pause-window family + all scripts (<=3 effective calls, 4 passes) of the witness programs")
+    ok, n, tr = validate(ctx, exe, jobs, "gen_bfs", "regression scenarios + pause-window families + all scripts (<=3 effective calls, 4 passes) of the witness programs")
     if ok:
         ctx.traces_ok -= n
         ctx.replays_ok += n
     # the same enumeration for a seeded sample of the model-checked programs (BFS, so the run is deterministic for a seed)
-    k = 10 if quick else 100
+    k = 7 if quick else 100
     smp_trees = rnd.sample(d1, k) + rnd.sample(d2, k) + rnd.sample(tmo, k // 2)
     ps = write_progs(ctx, "smp.json", smp_trees)
     behs = ctx.tlc_gen("Flow", "Gen_ActionTree.tla", "Gen_ActionTree.cfg", env={"PROGS": ps})
@@ -294,7 +325,7 @@ def run_checked(ctx):
 
     # ---- 3. code -> spec: seeded random deep programs and scripts -------------------------------------------------------
     jobs = []
-    for i in range(1200 if quick else 15000):
+    for i in range(1000 if quick else 15000):
         dp = rnd.choice((1, 2, 3, 3))
         t = P.random_tree(rnd, dp)
         while P.nleaves(t) > 6:
